@@ -10,7 +10,7 @@ CO = "compile-outcome monitor: rustc diagnostics of generated programs judged by
 
 CHECKS = {
     "C01": (RT, "4 C01", "Every getter of every generated layout is called on boundary, walking-bit, isolation-twin and seeded random raw values (all 2^B raws on bases <= 12/16 bits) and compared with a per-bit reference register; all (lo,hi) placements on the native bases (quick) / on all bases (thorough) are enumerated, so a defect keyed on a placement cannot hide, one keyed on a single 128-bit constant can."),
-    "C02": (RT, "4 C02", "with_/set_ on every writable field for boundary x boundary (raw, value) pairs (all pairs on small bases): result storage, receiver, read-back and with_/set_ agreement are compared with the reference register under two (thorough: four) build profiles."),
+    "C02": (RT, "4 C02", "with_/set_ on every writable field (contiguous and range-list) for boundary x boundary (raw, value) pairs (all pairs on small bases): result storage, receiver, read-back and with_/set_ agreement are compared with the reference register under two (thorough: four) build profiles."),
     "C03": (RT, "4 C03", "Array elements are written while all others hold distinct non-zero values and compared bit for bit with the reference register; a hostile index set (K, K+1, 2K, storage width, 2^32, wrap-around multiples of the stride, usize::MAX) must panic in getter, with_ and set_ under every profile and leave the object unchanged."),
     "C04": (RT, "4 C04", "Range-list fields (shuffled orders, bit reversal, native and arbitrary totals, interleaving list arrays) are read and written with single-bit and complement values; gather/scatter order is decided by the reference register's declaration-order positions."),
     "C05": (RT, "4 C05", "iN fields of every N at bottom/middle/top of native and arbitrary bases, as scalars, arrays and lists: min, -1, max etc. written over raw 0 and all-ones; sign-extension leaks show as a storage mismatch with the reference register."),
@@ -26,7 +26,7 @@ CHECKS = {
     "C15": ("CTFE-vs-runtime differential monitor with the reference register as third party", "4 C15", "A generated const fn probe per case calls every const operation; const items force rustc's const evaluator, the same probe runs at run time, both are compared with the reference register; any error inside the probe or the const items (E0015 non-const call, E0080 evaluation failed, ...) is a violation naming the operation."),
     "C16": ("multi-profile differential monitor with panic recorder", "4 C16", "The complete workloads of all run-time monitors are executed under dbg (overflow checks, debug assertions, opt 0) and rel (none, opt 3) (thorough: also the crossed profiles); any panic for an in-range operation is a violation and per-case observation digests must be identical across profiles."),
     "C17": (CO + " (method-presence probes)", "4 C17", "One probe per (field, method): getter / with_ / set_ / builder step (wherever the rules expect a builder) compile exactly when the access specifier grants them and fail with E0599 otherwise, for every field kind x {r, w, rw, none}; the run-time part (bits no writable field covers never change) is watched in the C12 histories."),
-    "C18": (CO + " in a #![no_std] #![deny(missing_docs)] crate + expansion-dump scan at the verif_hooks hook", "4 C18", "Documented, pub versions of the catalog (doc comments in ///, #[doc = ..], concat! and doc(hidden) form) compile with zero diagnostics in a no_std/deny(missing_docs) crate that can only see bitbybit and arbitrary_int, and once more inside modules that shadow Result/Ok/Err/Default; every macro expansion dumped by the hook is parsed with syn and walked for unsafe constructs and for path heads outside core/arbitrary_int/Self/user types. Thorough: macro built both ways."),
+    "C18": (CO + " in a #![no_std] #![deny(missing_docs)] crate + expansion-dump scan at the verif_hooks hook", "4 C18", "Documented, pub versions of the catalog (doc comments in ///, #[doc = ..], concat! and doc(hidden) form) compile with zero diagnostics in a no_std/deny(missing_docs) crate that can only see bitbybit and arbitrary_int, once more inside modules that shadow Result/Ok/Err/Default, and (path-typed declarations) in modules that import no arbitrary_int name; every macro expansion dumped by the hook is parsed with syn and walked for unsafe constructs and for path heads outside core/arbitrary_int/Self/user types. Thorough: macro built both ways."),
     "C19": (RT + " with a #[derive(Debug)] shadow struct as the format oracle", "4 C19", "{:?} and {:#?} of debug bitfields with every readable scalar field kind, for boundary and random raws, against a same-named plain struct with #[derive(Debug)] filled from the reference register; the text must not change after new_with_raw_value(raw_value())."),
 }
 
